@@ -324,6 +324,56 @@ func r02e(c *an.Ctx) {
 				}
 			}
 		}
+		// the task whose trait classifies a failed target is the roster's task with the id carried by the error key
+		// (ids are stable; agent and executor ids of a task change or are blanked when its executor or agent is lost)
+		byId, nSubj := true, 0
+		an.Instrs(fn, func(in ssa.Instruction) {
+			call, isCall := in.(*ssa.Call)
+			if !isCall || !an.InLoop(call.Block()) {
+				return
+			}
+			if n := an.MethodName(&call.Call); n != "GetTraits" && n != "GetTaskTraits" {
+				return
+			}
+			// walk from the receiver to the lookup that produced the task
+			recv := an.Strip(an.Args(&call.Call)[0])
+			for d := 0; d < 4; d++ {
+				if ld, isLd := recv.(*ssa.UnOp); isLd && ld.Op == token.MUL {
+					if fa, isFA := ld.X.(*ssa.FieldAddr); isFA { // task.parent
+						recv = an.Strip(fa.X)
+						continue
+					}
+				}
+				break
+			}
+			nSubj++
+			lk, isLk := recv.(*ssa.Call)
+			if !isLk {
+				if ex, isEx := recv.(*ssa.Extract); isEx {
+					lk, isLk = ex.Tuple.(*ssa.Call)
+				}
+			}
+			okLk := false
+			if isLk {
+				if n := an.MethodName(&lk.Call); n == "GetTask" || n == "getByTaskId" {
+					for _, a := range an.Args(&lk.Call)[1:] {
+						for _, l := range an.BackSlice(a, an.SliceOpts{}) {
+							if strings.Contains(l.Path, "TaskId") || strings.Contains(l.Path, "TaskID") {
+								okLk = true
+							}
+						}
+						if !okLk && (strings.Contains(an.ExprKey(a), "TaskId") || strings.Contains(an.ExprKey(a), "TaskID")) {
+							okLk = true
+						}
+					}
+				}
+			}
+			if !okLk {
+				byId = false
+			}
+		})
+		c.Ob(key+"|classified-by-task-id", fn.Pos(), byId && nSubj > 0,
+			"the task whose Critical trait decides whether a failed target fails the transition must be looked up in the roster by the task id of the error key (%d trait reads inspected): matching by the whole command target misses a critical task whose executor or agent id changed or was blanked while the command was in flight, and its failure is then treated as non-critical", nSubj)
 		sets[i]["critical-appends"] = len(critLists) >= 1
 		sets[i]["classified-return"] = okRet && nRet >= 1
 		c.Ob(key+"|critical-classification", fn.Pos(), len(critLists) >= 1 && okRet && nRet >= 1,
